@@ -53,15 +53,20 @@ GSweep == /\ Open
              \/ CleanSwap
           /\ hist' = Append(hist, last')
 
+GForeign == /\ Open
+            /\ nPresent > 0          \* a flood before anything was presented is just a bigger cache
+            /\ Foreign
+            /\ hist' = Append(hist, last')
+
 GTick == /\ Open
          /\ issued[1] # None
          /\ Tick
          /\ hist' = Append(hist, last')
 
-GNext == GIssue \/ GPresent \/ GClean \/ GSweep \/ GTick
+GNext == GIssue \/ GPresent \/ GClean \/ GSweep \/ GForeign \/ GTick
 GSpec == GInit /\ [][GNext]_gvars
 
-Doc == [dev |-> Dev, w |-> W, r |-> R, steps |-> hist]
+Doc == [dev |-> Dev, w |-> W, r |-> R, cap |-> Cap, steps |-> hist]
 
 Emit == IF EmitCex
           THEN Violated => PrintT(<<"BEHAVIOUR", ToJson(Doc)>>)
